@@ -186,10 +186,11 @@ def _style_declarations(base):
     """
     Recursively find all CSSStyleDeclarations.
     """
-    for rule in getattr(base, 'cssRules', ()):
-        yield from _style_declarations(rule)
+    # the declarations of an @page rule come before its margin boxes
     if hasattr(base, 'style'):
         yield base.style
+    for rule in getattr(base, 'cssRules', ()):
+        yield from _style_declarations(rule)
 
 
 def getUrls(sheet):
